@@ -22,6 +22,7 @@ CONSTANTS
   MaxOps = {maxops}
   Stable = {stable}
   OpKinds = {opkinds}
+  MaxBatch = {maxbatch}
   Deviations = {{}}
 VIEW view
 INVARIANTS {invariants}
@@ -48,6 +49,7 @@ INV2PROP = {
     "RewritePreservesContents": "C13", "OneVersionPerCommit": "C13",
     "VersionColumnsCorrect": "C17",
     "RowIdStable": "C18", "RowIdUnique": "C18",
+    "TakeEqualsScan": "C15", "TakeRowsEqualsScan": "C15",
 }
 
 
@@ -55,13 +57,13 @@ def tla_set(xs):
     return "{" + ", ".join(json.dumps(x) if isinstance(x, str) else str(x) for x in xs) + "}"
 
 
-def cfg(ids, vals, maxv, maxops, stable, opkinds, invariants=ALL_INVS, props=ALL_PROPS):
-    return MC_CFG.format(ids=tla_set(ids), vals=tla_set(vals), maxv=maxv, maxops=maxops,
+def cfg(ids, vals, maxv, maxops, stable, opkinds, invariants=ALL_INVS, props=ALL_PROPS, maxbatch=1):
+    return MC_CFG.format(ids=tla_set(ids), vals=tla_set(vals), maxv=maxv, maxops=maxops, maxbatch=maxbatch,
                          stable="TRUE" if stable else "FALSE", opkinds=tla_set(opkinds),
                          invariants=invariants, props=props)
 
 
-def hist_to_scenario(hist, sid, stable, reread=False):
+def hist_to_scenario(hist, sid, stable, reread=False, tail_steps=None, knobs=None):
     """TLC history (list of step records) -> driver scenario."""
     steps = []
     init = hist[0]
@@ -97,11 +99,27 @@ def hist_to_scenario(hist, sid, stable, reread=False):
         # time travel: every version is read again at the end (C06)
         for v in range(1, 9):
             steps.append({"op": "reread", "v": v})
+    if tail_steps:
+        steps.extend(tail_steps)
+    if knobs:
+        for st in steps:
+            if st["op"] in ("create", "append", "overwrite"):
+                st.update({k: v for k, v in knobs.items() if k.startswith("max_rows")})
+    if knobs and knobs.get("storage_version") == "legacy":
+        # the 0.1 file format has no nulls for primitive columns (docs/src/format/file/versioning.md: null support
+        # for primitives was introduced by 2.0), so legacy scenarios write a value instead of NULL
+        for st in steps:
+            for key in ("rows", "src"):
+                if key in st:
+                    st[key] = [[7 if x == -1 else x for x in r] for r in st[key]]
+    if knobs and "storage_version" in knobs:
+        return {"id": sid, "stable": stable, "storage_version": knobs["storage_version"], "steps": steps, "knobs": knobs,
+                "model_res": [st.get("res") for st in hist[1:]]}
     return {"id": sid, "stable": stable, "steps": steps,
             "model_res": [st.get("res") for st in hist[1:]]}
 
 
-def run_family(name, prop, hists_by_stable, reread, shards=8, timeout=3000):
+def run_family(name, prop, hists_by_stable, reread, shards=8, timeout=3000, tail_steps=None, knob_list=None):
     """Replay histories on the implementation and validate the traces.  Returns (reports, files)."""
     binary, build_s = vlib.harness_build("vh_table")
     wd = vlib.workdir(f"{prop}-{name}")
@@ -111,7 +129,8 @@ def run_family(name, prop, hists_by_stable, reread, shards=8, timeout=3000):
         for stable, hists in hists_by_stable:
             for h in hists:
                 n += 1
-                f.write(json.dumps(hist_to_scenario(h, n, stable, reread)) + "\n")
+                kn = knob_list[n % len(knob_list)] if knob_list else None
+                f.write(json.dumps(hist_to_scenario(h, n, stable, reread, tail_steps, kn)) + "\n")
     scratch = f"/dev/shm/lance-verif-{prop}-{name}-{os.getpid()}"
     if not os.path.isdir("/dev/shm"):
         scratch = os.path.join(wd, "scratch")
@@ -145,7 +164,8 @@ def generate(name, prop, c, simulate=None, timeout=1500):
     return hists, stats
 
 
-def run(prop, tier, families, own_invariants, reread=False, assumptions=None, quick_cap=1500, thorough_cap=12000):
+def run(prop, tier, families, own_invariants, reread=False, assumptions=None, quick_cap=1500, thorough_cap=12000,
+        tail_steps=None, knob_list=None):
     """families: list of dicts(name, ids, vals, maxv, maxops(quick), maxops_thorough, stable(list), opkinds)"""
     t0 = time.time()
     rnd = random.Random(vlib.seed())
@@ -160,7 +180,7 @@ def run(prop, tier, families, own_invariants, reread=False, assumptions=None, qu
         maxops = fam["maxops"] if tier == "quick" else fam.get("maxops_thorough", fam["maxops"] + 1)
         hb = []
         for stable in fam["stable"]:
-            c = cfg(fam["ids"], fam["vals"], fam["maxv"], maxops, stable, fam["opkinds"])
+            c = cfg(fam["ids"], fam["vals"], fam["maxv"], maxops, stable, fam["opkinds"], maxbatch=fam.get("maxbatch", 1))
             # 1. model-check the intended design
             r = vlib.tlc_mc(f"{prop}-{fam['name']}-{int(stable)}", "LanceTable", c, workers=8, timeout=3000)
             if r["violated"]:
@@ -179,7 +199,7 @@ def run(prop, tier, families, own_invariants, reread=False, assumptions=None, qu
                 exhaustive = False
             hb.append((stable, sample(hists, cap, rnd)))
         # 3./4. replay on the implementation and validate
-        reports, scn_file, n, build_s = run_family(fam["name"], prop, hb, reread)
+        reports, scn_file, n, build_s = run_family(fam["name"], prop, hb, reread, tail_steps=tail_steps, knob_list=knob_list)
         total_scn += n
         scn_lines = None
         bad_scn = set()
